@@ -251,7 +251,7 @@ CHECKS = {
     text="Gateway.tla models the gateway as a decision procedure over the request space (HTTP method x path shape x object-name class x "
          "member x key configuration x key presented in header / $key x expose pattern x oneway option x query shape: about 1.3 million requests) "
          "with Decide (refuse without traffic / preflight / index / forward) and Forward (what runs, status, body); TLC checks OnlyAuthorised "
-         "and InvokesOnlyNamed on all of them; Gen_Gateway.tla folds irrelevant fields and enumerates 10 498 distinguishable requests (including a method slower than the gateway's communication timeout); each "
+         "and InvokesOnlyNamed on all of them; Gen_Gateway.tla folds irrelevant fields and enumerates 11 730 distinguishable requests (including a method slower than the gateway's communication timeout); each "
          "is concretised as a WSGI environ and given to the real pyro_app in front of a real name-server object and real target objects in a "
          "real daemon (in-memory transport); every Pyro message the gateway sends is counted and every execution of a target member is logged "
          "with object, member, arguments and return value; status, body, traffic and executions are judged per request by TLC "
@@ -278,6 +278,25 @@ LATER = {
  "C16": "Histories include unregistering a fresh instance of a registered class, ids no uri can carry, and a completely enumerated family in which a weakly registered object's id passes to another object before it is collected.",
  "C18": "Delay-bounded schedules hold one worker back at each of its first steps. The hand-over of a job and the moment the pool becomes closed are logged inside the critical sections and tied to the atomic effects; grow / shrink / grow scripts; the close starts together with a submission.",
 }
+# seventh round (DESIGN.md section 11.4g)
+ROUND7 = {
+ "C01": "The serpent serializer with SERPENT_BYTES_REPR switched on is a serializer variant of its own in Serial.tla (serpentb), driven at serializer and network level.",
+ "C02": "Attribute requests that carry more than the name and the value (further positional and keyword arguments) may be refused but must not reach more.",
+ "C03": "A stream fetch is a call kind of its own (an item must be the one its own request made an endless server-side iterator produce; 'exhausted' is never an answer); every fourth script uses the proxy in wire-level mode and decodes the reply message itself.",
+ "C04": "Class dicts also carry the member names serializers use for their own special dicts (items, real, imag, data, ...), a rebuilt Proxy rotates through them; natively written classes (OrderedDict, complex, uuid, ...) as tags.",
+ "C05": "The well-behaved client's own calls include methods, property getters and setters whose code raises Pyro's own error classes (class and text must arrive). A thread-pool hand-over pass: a connection (garbage or well-behaved) ends and the next client arrives while the worker hands itself back, the worker being held back after each of its steps in turn.",
+ "C07": "Two connections make the thread-pool daemon raise the very same exception object at once (switch points in the error-reply code and the serializer's class-to-dict conversion).",
+ "C08": "Unknown objects include ids that used to be registered and connected to (a collected weak registration, an unregistered object); a pass with real Proxies as peers requires the daemon's reason (validator, unknown object, no free worker) to reach the caller under every serializer.",
+ "C09": "Racing first calls (two and three connections) with a creator that fails its first invocation; the race-mode monitor accepts the failure for whichever call got that invocation, exactly one per class.",
+ "C10": "Fetches whose reply is lost after the server took them up (the stream moves on, the client must see a communication error); every other script's proxies are told to retry failed calls.",
+ "C11": "An earlier batch whose results are never looked at, or are looked at only after the next batch's calls were collected, on a re-used batch proxy.",
+ "C13": "Streamed results of every iterator kind (generator, list iterator, endless counter, plain object with __next__); the same thread-pool hand-over pass as C05 (every connection served, cleaned up once, every worker slot free again).",
+ "C14": "Name alphabets also with characters beyond the basic plane and with control characters (NUL, DEL, tab).",
+ "C15": "The name server object is made under each server type in turn.",
+ "C20": "Object names that begin with an empty or a dot path segment (path shape lead_seg in Gateway.tla).",
+}
+for _k, _v in ROUND7.items():
+    LATER[_k] = (LATER[_k] + " " + _v) if _k in LATER else _v
 NOT_YET = {}
 ALL = ["C%02d" % i for i in range(1, 21)]
 
